@@ -227,7 +227,15 @@ class S16(explore.Spec):
       return [("dangling-mention", "records mention {} which the Gfa does not "
                "hold (not even as placeholder)".format(sorted(und)))]
     _JUDGED[0] += 1
-    return judge_graph(g, doc)
+    try:
+      return judge_graph(g, doc)
+    except HarnessTimeout:
+      raise
+    except Exception as e:
+      # the document is well formed (no placeholder, every mention defined):
+      # a topology query that raises gives no answer at all
+      return [("raises", "{}: {}".format(type(e).__name__,
+                                         str(e).split("\n")[0][:100]))]
 
   def nontrivial(self, g, env):
     if invariants.placeholders(g):
@@ -435,6 +443,15 @@ def run(ctx):
   for name, d in plan:
     done[name] = explore.bfs(px, explore.SPECS[name], d)[0]
     ctx.extra.setdefault("phase_s", {})[name] = round(ctx.elapsed(), 1)
+  # the same searches from a NON-initial state: the whole graph-shaped
+  # universe loaded (branching ends, parallel edges, cycles, a path / group),
+  # then every history of removals, renames and re-additions
+  d2 = 2 if ctx.quick else 3
+  for name, U in (("c16.h1", H1[:12]), ("c16.h2", H2[:11])):
+    label = name + "@full"
+    done[label] = explore.bfs(px, explore.SPECS[name], d2, label=label,
+                              prefix=[("add", l) for l in U])[0]
+    ctx.extra.setdefault("phase_s", {})[label] = round(ctx.elapsed(), 1)
   ctx.bound_completed = {"graph_families": "complete", "history_depth": done}
   hashseed_crosscheck(ctx)
 
